@@ -113,19 +113,19 @@ theorem opDep_lt {d : PDiag O A} {x y : Nat} (h : opDep d x y) :
 
 /-! #### consequences of `SingleWriter` -/
 
-theorem SingleWriter.ins_nodup {d : PDiag O A} (h : SingleWriter d) : d.ins.Nodup :=
+theorem sw_ins_nodup {d : PDiag O A} (h : SingleWriter d) : d.ins.Nodup :=
   (List.nodup_append.1 h).1
 
-theorem SingleWriter.tgt_nodup {d : PDiag O A} (h : SingleWriter d) :
+theorem sw_tgt_nodup {d : PDiag O A} (h : SingleWriter d) :
     ∀ e ∈ d.edges, e.tgt.Nodup :=
   (List.nodup_flatMap.1 (List.nodup_append.1 h).2.1).1
 
-theorem SingleWriter.ins_not_tgt {d : PDiag O A} (h : SingleWriter d) :
+theorem sw_ins_not_tgt {d : PDiag O A} (h : SingleWriter d) :
     ∀ v ∈ d.ins, ∀ e ∈ d.edges, v ∉ e.tgt := by
   intro v hv e he hve
   exact (List.nodup_append.1 h).2.2 v hv v (List.mem_flatMap.2 ⟨e, he, hve⟩) rfl
 
-theorem SingleWriter.edge_unique {d : PDiag O A} (h : SingleWriter d) {j j' : Nat}
+theorem sw_edge_unique {d : PDiag O A} (h : SingleWriter d) {j j' : Nat}
     {e e' : PEdge A} (hj : d.edges[j]? = some e) (hj' : d.edges[j']? = some e') {v : Nat}
     (hv : v ∈ e.tgt) (hv' : v ∈ e'.tgt) : j = j' := by
   have hp := (List.nodup_flatMap.1 (List.nodup_append.1 h).2.1).2
@@ -174,14 +174,14 @@ theorem nodup_flatMap_tgtOf {d : PDiag O A} (hsw : SingleWriter d) (g : List Nat
     unfold tgtOf
     cases he : d.edges[j]? with
     | none => simp
-    | some e => exact hsw.tgt_nodup e (List.mem_of_getElem? he)
+    | some e => exact sw_tgt_nodup hsw e (List.mem_of_getElem? he)
   · refine List.Pairwise.imp ?_ hg
     intro j j' hne
     simp only [Function.onFun]
     intro v hv hv'
     obtain ⟨e, he, hve⟩ := mem_tgtOf hv
     obtain ⟨e', he', hve'⟩ := mem_tgtOf hv'
-    exact hne (hsw.edge_unique he he' hve hve')
+    exact hne (sw_edge_unique hsw he he' hve hve')
 
 /-! #### one layer -/
 
@@ -222,13 +222,17 @@ theorem layerStep_rd_tgt (hsw : SingleWriter d) (ha : Arity d opfn) (hwf : d.wf 
     intro v hv
     simp only [PDiag.wf, Bool.and_eq_true, List.all_eq_true, decide_eq_true_eq] at hwf
     exact (hwf.2 e (List.mem_of_getElem? he)).2 v hv
-  apply List.ext_getElem
-  · rw [List.length_map, hlen_e]
-  · intro p hp1 hp2
-    rw [List.getElem_map]
-    rw [List.length_map] at hp1
-    unfold layerStep rd
+  have hstep : layerStep d opfn dflt mem g = writeAll mem
+      (g.flatMap (fun i => (tgtOf d i).zip (outOf d opfn dflt mem i))) := by
+    unfold layerStep
     rw [zip_flatMap g _ _ hlens]
+  have hpt : ∀ p (hp1 : p < e.tgt.length)
+      (hp2 : p < (opfn e.label (e.src.map (rd dflt mem))).length),
+      rd dflt (layerStep d opfn dflt mem g) e.tgt[p] =
+        (opfn e.label (e.src.map (rd dflt mem)))[p] := by
+    intro p hp1 hp2
+    rw [hstep]
+    unfold rd
     apply writeAll_getD_of_mem_nodup _ _ _ _ _ hkeys
     · rw [List.mem_flatMap]
       refine ⟨j, hj, ?_⟩
@@ -242,6 +246,11 @@ theorem layerStep_rd_tgt (hsw : SingleWriter d) (ha : Arity d opfn) (hwf : d.wf 
       exact List.getElem_mem _
     · rw [hlen]
       exact htlt _ (List.getElem_mem _)
+  apply List.ext_getElem
+  · rw [List.length_map, hlen_e]
+  · intro p hp1 hp2
+    rw [List.getElem_map]
+    exact hpt p (by simpa using hp1) hp2
 
 end step
 
@@ -277,7 +286,7 @@ theorem inv_init (d : PDiag O A) (opfn : A → List T → List T) (dflt : T) (s 
       unfold initMem rd
       apply writeAll_getD_of_mem_nodup
       · rw [List.map_fst_zip (Nat.le_of_eq hs.symm)]
-        exact hsw.ins_nodup
+        exact sw_ins_nodup hsw
       · have : (d.ins[p], s[p]) = (d.ins.zip s)[p]'(by rw [List.length_zip]; omega) := by
           rw [List.getElem_zip]
         rw [this]
@@ -323,7 +332,7 @@ theorem inv_step {d : PDiag O A} {opfn : A → List T → List T} {dflt : T} {s 
     apply layerStep_rd_of_not_mem
     intro hmem
     obtain ⟨j, e, he, _, hve⟩ := hkey v hmem
-    exact hsw.ins_not_tgt v hv e (List.mem_of_getElem? he) hve
+    exact sw_ins_not_tgt hsw v hv e (List.mem_of_getElem? he) hve
   · intro j e he hlt
     have hsame : e.src.map (rd dflt (layerStep d opfn dflt mem (groups.getD k []))) =
         e.src.map (rd dflt mem) := by
@@ -338,7 +347,8 @@ theorem inv_step {d : PDiag O A} {opfn : A → List T → List T} {dflt : T} {s 
       apply layerStep_rd_of_not_mem
       intro hmem
       obtain ⟨j', e', he', hk', hve'⟩ := hkey v hmem
-      have := hsw.edge_unique he he' hv hve'
+      have := sw_edge_unique hsw he he' hv hve'
+      subst this
       omega
     · have hjk' : lay j = k := by omega
       have hjg : j ∈ groups.getD k [] :=
@@ -366,7 +376,7 @@ theorem inv_take {d : PDiag O A} {opfn : A → List T → List T} {dflt : T} {s 
   | succ k ih =>
     intro hk
     have hk' : k < groups.length := by omega
-    rw [List.take_succ, List.foldl_append, List.getElem?_eq_getElem hk']
+    rw [List.take_add_one, List.foldl_append, List.getElem?_eq_getElem hk']
     simp only [Option.toList_some, List.foldl_cons, List.foldl_nil]
     have := inv_step hsw ha hwf hl (ih (by omega))
     rw [List.getD_eq_getElem?_getD, List.getElem?_eq_getElem hk'] at this
